@@ -1,0 +1,319 @@
+//! Verification facade (compiled only with `--cfg rzmq_verif` or under Kani).
+//!
+//! Thin `pub` wrappers around crate-private items so that out-of-tree proof
+//! harnesses and native counterexample replays can drive them. Nothing in here
+//! contains logic of its own: every function forwards to the real item.
+
+use crate::error::ZmqError;
+use crate::message::{FrameBatch, Msg};
+use crate::protocol::zmtp::engine::ZmtpEngine;
+use crate::security::framer::encoder::ZmtpFrameEncoder;
+use crate::security::framer::{ISecureFramer, LengthPrefixedFramer, NullFramer};
+use crate::security::IDataCipher;
+use crate::socket::options::ZmtpEngineConfig;
+use bytes::{Bytes, BytesMut};
+use std::sync::Arc;
+use std::time::{Duration, Instant};
+
+/// Plain mirror of the crate-private `ZmtpEngineConfig` fields the checks vary.
+#[derive(Debug, Clone)]
+pub struct EngineCfg {
+  pub socket_type_name: String,
+  pub routing_id: Option<Vec<u8>>,
+  pub security_enabled: bool,
+  pub allow_zmtp2: bool,
+  pub heartbeat_ivl: Option<Duration>,
+  pub heartbeat_timeout: Option<Duration>,
+  pub use_cork: bool,
+  pub use_plain: bool,
+  pub plain_username: Option<String>,
+  pub plain_password: Option<String>,
+  pub use_curve: bool,
+  pub curve_local_secret_key: Option<[u8; 32]>,
+  pub curve_remote_public_key: Option<[u8; 32]>,
+  pub use_noise_xx: bool,
+  pub noise_xx_local_sk: Option<[u8; 32]>,
+  pub noise_xx_remote_pk: Option<[u8; 32]>,
+  pub max_msg_size: i64,
+}
+
+impl Default for EngineCfg {
+  fn default() -> Self {
+    Self {
+      socket_type_name: String::new(),
+      routing_id: None,
+      security_enabled: false,
+      allow_zmtp2: true,
+      heartbeat_ivl: None,
+      heartbeat_timeout: None,
+      use_cork: false,
+      use_plain: false,
+      plain_username: None,
+      plain_password: None,
+      use_curve: false,
+      curve_local_secret_key: None,
+      curve_remote_public_key: None,
+      use_noise_xx: false,
+      noise_xx_local_sk: None,
+      noise_xx_remote_pk: None,
+      max_msg_size: -1,
+    }
+  }
+}
+
+#[allow(unused_mut, unused_variables)]
+fn to_engine_config(cfg: EngineCfg) -> ZmtpEngineConfig {
+  let mut c = ZmtpEngineConfig::default();
+  c.socket_type_name = cfg.socket_type_name;
+  c.routing_id = cfg.routing_id.map(crate::Blob::from);
+  c.security_enabled = cfg.security_enabled;
+  c.allow_zmtp2 = cfg.allow_zmtp2;
+  c.heartbeat_ivl = cfg.heartbeat_ivl;
+  c.heartbeat_timeout = cfg.heartbeat_timeout;
+  c.use_cork = cfg.use_cork;
+  c.max_msg_size = cfg.max_msg_size;
+  #[cfg(feature = "plain")]
+  {
+    c.use_plain = cfg.use_plain;
+    c.plain_username_for_engine = cfg.plain_username;
+    c.plain_password_for_engine = cfg.plain_password;
+  }
+  #[cfg(feature = "curve")]
+  {
+    c.use_curve = cfg.use_curve;
+    c.curve_local_secret_key = cfg.curve_local_secret_key;
+    c.curve_remote_public_key = cfg.curve_remote_public_key;
+  }
+  #[cfg(feature = "noise_xx")]
+  {
+    c.use_noise_xx = cfg.use_noise_xx;
+    c.noise_xx_local_sk_bytes_for_engine = cfg.noise_xx_local_sk;
+    c.noise_xx_remote_pk_bytes_for_engine = cfg.noise_xx_remote_pk;
+  }
+  c
+}
+
+pub fn new_engine(is_server: bool, cfg: EngineCfg) -> ZmtpEngine {
+  ZmtpEngine::new(is_server, Arc::new(to_engine_config(cfg)))
+}
+
+// --- write-side frame encoder -------------------------------------------------
+
+pub struct VFrameEncoder(ZmtpFrameEncoder);
+
+impl VFrameEncoder {
+  pub fn new(header_cap: usize, coalesce_cap: usize) -> Self {
+    Self(ZmtpFrameEncoder::new(header_cap, coalesce_cap))
+  }
+  pub fn frame_contiguous(&mut self, batch: &[FrameBatch]) -> Result<Bytes, ZmqError> {
+    self.0.frame_contiguous(batch)
+  }
+  pub fn frame_vectored(&mut self, batch: &[FrameBatch]) -> Result<Vec<Bytes>, ZmqError> {
+    self.0.frame_vectored(batch)
+  }
+}
+
+// --- framers --------------------------------------------------------------------
+
+pub struct VNullFramer(NullFramer);
+
+impl VNullFramer {
+  pub fn new(max_msg_size: i64, sndbatch_count: usize, sndbatch_bytes_physical: usize) -> Self {
+    Self(NullFramer::new(max_msg_size, sndbatch_count, sndbatch_bytes_physical))
+  }
+  pub fn try_read_msg(&mut self, buf: &mut BytesMut) -> Result<Option<Msg>, ZmqError> {
+    self.0.try_read_msg(buf)
+  }
+  pub fn write_msg_multipart(&mut self, msgs: FrameBatch) -> Result<Bytes, ZmqError> {
+    self.0.write_msg_multipart(msgs)
+  }
+  pub fn write_msg_batch(&mut self, batch: &[FrameBatch]) -> Result<Bytes, ZmqError> {
+    self.0.write_msg_batch(batch)
+  }
+  pub fn write_msg_split(&mut self, msg: Msg) -> Result<(Bytes, Option<Bytes>), ZmqError> {
+    self.0.write_msg_split(msg)
+  }
+  pub fn frame_vectored(&mut self, batch: &[FrameBatch]) -> Result<Vec<Bytes>, ZmqError> {
+    self.0.frame_vectored(batch)
+  }
+}
+
+/// Stand-in for the crate-private `IDataCipher` trait.
+pub trait VCipher: Send + Sync + 'static {
+  fn encrypt(&mut self, plaintext: &[u8]) -> Result<Vec<u8>, ZmqError>;
+  fn decrypt(&mut self, ciphertext: &[u8]) -> Result<Vec<u8>, ZmqError>;
+}
+
+struct CipherAdapter<C: VCipher>(C);
+
+impl<C: VCipher> IDataCipher for CipherAdapter<C> {
+  fn encrypt(&mut self, plaintext: &[u8]) -> Result<Vec<u8>, ZmqError> {
+    self.0.encrypt(plaintext)
+  }
+  fn decrypt(&mut self, ciphertext: &[u8]) -> Result<Vec<u8>, ZmqError> {
+    self.0.decrypt(ciphertext)
+  }
+}
+
+pub struct VLengthPrefixedFramer(LengthPrefixedFramer);
+
+impl VLengthPrefixedFramer {
+  pub fn new<C: VCipher>(cipher: C, max_msg_size: i64, sndbatch_count: usize, sndbatch_bytes_physical: usize) -> Self {
+    Self(LengthPrefixedFramer::new(
+      Box::new(CipherAdapter(cipher)),
+      max_msg_size,
+      sndbatch_count,
+      sndbatch_bytes_physical,
+    ))
+  }
+  pub fn try_read_msg(&mut self, buf: &mut BytesMut) -> Result<Option<Msg>, ZmqError> {
+    self.0.try_read_msg(buf)
+  }
+  pub fn write_msg_multipart(&mut self, msgs: FrameBatch) -> Result<Bytes, ZmqError> {
+    self.0.write_msg_multipart(msgs)
+  }
+  pub fn write_msg_batch(&mut self, batch: &[FrameBatch]) -> Result<Bytes, ZmqError> {
+    self.0.write_msg_batch(batch)
+  }
+}
+
+// --- reconnect back-off -----------------------------------------------------------
+
+pub struct VReconnectState(crate::socket::core::state::ReconnectState);
+
+impl VReconnectState {
+  pub fn new(current_attempts: u32) -> Self {
+    let mut s = crate::socket::core::state::ReconnectState::default();
+    s.current_attempts = current_attempts;
+    Self(s)
+  }
+  pub fn on_connection_success(&mut self) {
+    self.0.on_connection_success()
+  }
+  pub fn on_connection_failure(&mut self, base_ivl: Duration, max_ivl: Duration) -> Duration {
+    self.0.on_connection_failure(base_ivl, max_ivl)
+  }
+  pub fn is_due(&self, now: Instant) -> bool {
+    self.0.is_due(now)
+  }
+  pub fn current_attempts(&self) -> u32 {
+    self.0.current_attempts
+  }
+  pub fn next_attempt_at(&self) -> Option<Instant> {
+    self.0.next_attempt_at
+  }
+}
+
+// --- session egress buffer -------------------------------------------------------
+
+pub struct VEgressBuffer(crate::sessionx::egress_buffer::EgressBuffer);
+
+impl VEgressBuffer {
+  pub fn new() -> Self {
+    Self(crate::sessionx::egress_buffer::EgressBuffer::new())
+  }
+  pub fn push(&mut self, data: Bytes, msg_count: usize) {
+    self.0.push(data, msg_count)
+  }
+  pub fn push_priority(&mut self, data: Bytes) {
+    self.0.push_priority(data)
+  }
+  pub fn current_slice(&self) -> Option<&[u8]> {
+    self.0.current_slice()
+  }
+  pub fn fill_slices<'a>(&'a self, out: &mut [std::io::IoSlice<'a>]) -> usize {
+    self.0.fill_slices(out)
+  }
+  pub fn advance(&mut self, n: usize) -> usize {
+    self.0.advance(n)
+  }
+  pub fn pending_messages(&self) -> usize {
+    self.0.pending_messages()
+  }
+  pub fn total_pending_bytes(&self) -> usize {
+    self.0.total_pending_bytes()
+  }
+  pub fn is_empty(&self) -> bool {
+    self.0.is_empty()
+  }
+}
+
+// --- ROUTER/DEALER envelope framing ---------------------------------------------
+
+pub fn router_auto_encode(frames: &mut FrameBatch) {
+  crate::socket::patterns::framing::router_auto_encode(frames)
+}
+pub fn router_auto_decode(frames: &mut FrameBatch) {
+  crate::socket::patterns::framing::router_auto_decode(frames)
+}
+pub fn dealer_auto_encode(frames: &mut FrameBatch) {
+  crate::socket::patterns::framing::dealer_auto_encode(frames)
+}
+pub fn dealer_auto_decode(frames: &mut FrameBatch) {
+  crate::socket::patterns::framing::dealer_auto_decode(frames)
+}
+
+// --- PLAIN mechanism --------------------------------------------------------------
+
+#[cfg(feature = "plain")]
+pub struct VPlainMechanism(crate::security::PlainMechanism);
+
+#[cfg(feature = "plain")]
+impl VPlainMechanism {
+  pub fn new_server(user: Option<Vec<u8>>, pass: Option<Vec<u8>>) -> Self {
+    let mut m = crate::security::PlainMechanism::new(true);
+    m.set_server_expected_credentials(user, pass);
+    Self(m)
+  }
+  pub fn new_client(user: Option<Vec<u8>>, pass: Option<Vec<u8>>) -> Self {
+    let mut m = crate::security::PlainMechanism::new(false);
+    m.set_client_credentials(user, pass);
+    Self(m)
+  }
+  /// Ok(()) iff the real `process_token` returned Ok.
+  pub fn process_token(&mut self, token: &[u8]) -> Result<(), ZmqError> {
+    use crate::security::Mechanism;
+    self.0.process_token(token).map(|_| ())
+  }
+  pub fn produce_token(&mut self) -> Result<Option<Vec<u8>>, ZmqError> {
+    use crate::security::Mechanism;
+    self.0.produce_token()
+  }
+  pub fn is_complete(&self) -> bool {
+    use crate::security::Mechanism;
+    self.0.is_complete()
+  }
+  pub fn is_error(&self) -> bool {
+    use crate::security::Mechanism;
+    self.0.is_error()
+  }
+}
+
+// --- subscription trie ------------------------------------------------------------
+
+pub struct VSubscriptionTrie(crate::socket::patterns::trie::SubscriptionTrie);
+
+impl VSubscriptionTrie {
+  pub fn new() -> Self {
+    Self(crate::socket::patterns::trie::SubscriptionTrie::new())
+  }
+  pub fn subscribe(&self, topic: &[u8]) {
+    self.0.subscribe(topic)
+  }
+  pub fn unsubscribe(&self, topic: &[u8]) -> bool {
+    self.0.unsubscribe(topic)
+  }
+  pub fn matches(&self, message_topic: &[u8]) -> bool {
+    self.0.matches(message_topic)
+  }
+  pub fn get_all_topics(&self) -> Vec<Vec<u8>> {
+    self.0.get_all_topics()
+  }
+}
+
+// --- socket-type compatibility tables ----------------------------------------------
+
+#[cfg(feature = "inproc")]
+pub fn inproc_socket_types_compatible(a: crate::socket::types::SocketType, b: crate::socket::types::SocketType) -> bool {
+  crate::transport::inproc::handshake::validate_socket_compatibility(a, b).is_ok()
+}
